@@ -205,6 +205,37 @@ def run_viz(ctx, part, parts):
                     )
                 count += 1
                 nontrivial += nt
+    # the word as it sits in a module: a Visualization object obtained from the module earlier is used after the module's
+    # word has been changed another way.  Whether such an object writes through to the module is the library's
+    # choice - but a sub-field assignment changes at most that sub-field of what the module holds now
+    from rv.api import m as _m
+
+    words = [w for i, (w, _) in enumerate(viz_words()) if i % (parts * 9) == part][:40]
+    for wi, w1 in enumerate(words):
+        w2 = words[(wi + 1) % len(words)]
+        for name, shift, width, news, norm in VIZ_FIELDS:
+            mask = ((1 << width) - 1) << shift
+            new = news[(wi + shift) % len(news)]
+            mod = _m.Amplifier()
+            mod.visualization = w1
+            kept = mod.visualization
+            mod.visualization = w2
+            second = mod.visualization
+            other = VIZ_FIELDS[(VIZ_FIELDS.index((name, shift, width, news, norm)) + 1) % len(VIZ_FIELDS)]
+            try:
+                setattr(second, other[0], other[3][0])  # a sub-field set through a second object, whatever that does
+                before = int(mod.visualization)
+                setattr(kept, name, new)
+                after = int(mod.visualization)
+            except Exception as e:  # noqa: BLE001
+                ctx.check(False, "C12.viz.module_view", "module word 0x%08x -> 0x%08x, kept object .%s = %r raised %r" % (w1, w2, name, new, e), key="C12.viz.module_view", recipe={"op": "viz_view", "w1": w1, "w2": w2, "field": name, "new": new})
+                count += 1
+                continue
+            allowed = {before, (before & ~mask) | (norm(new) << shift)}
+            ctx.check(after in allowed, "C12.viz.module_view", "the module held 0x%08x; .%s = %r through a Visualization object obtained earlier (when it held 0x%08x) leaves it holding 0x%08x: other sub-fields changed" % (before, name, new, w1, after), key="C12.viz.module_view", recipe={"op": "viz_view", "w1": w1, "w2": w2, "field": name, "new": new})
+            count += 1
+            nontrivial += 1
+    ctx.label("viz_object_kept_across_a_change")
     ctx.case(count)
     ctx.mark_nontrivial_count("viz[%d/%d]" % (part, parts), nontrivial)
     ctx.label("viz_part")
@@ -590,6 +621,20 @@ def replay(ctx, doc):
         exp = (r["old"] & ~mask & 0xFFFF) | (r["new"] << shift)
         if getattr(n, word) != exp or getattr(n, fname) != r["new"] or getattr(n, other_word) != old_other or (int(n.note), n.vel, n.module) != (int(cmd), vel, module):
             raise PropertyViolation("C12.note.setter_in_context." + fname, "note %s held as %s: old 0x%04x, %s=0x%02x -> 0x%04x, expected 0x%04x" % (cmd.name, r["held_as"], r["old"], fname, r["new"], getattr(n, word), exp))
+    elif op == "viz_view":
+        from rv.api import m as _m
+
+        name, shift, width, news, norm = next(f for f in VIZ_FIELDS if f[0] == r["field"])
+        mask = ((1 << width) - 1) << shift
+        mod = _m.Amplifier()
+        mod.visualization = r["w1"]
+        kept = mod.visualization
+        mod.visualization = r["w2"]
+        before = int(mod.visualization)
+        setattr(kept, name, r["new"])
+        after = int(mod.visualization)
+        if after not in {before, (before & ~mask) | (norm(r["new"]) << shift)}:
+            raise PropertyViolation("C12.viz.module_view", "module held 0x%08x, now 0x%08x" % (before, after))
     elif op == "viz":
         name, shift, width, news, norm = next(f for f in VIZ_FIELDS if f[0] == r["field"])
         v = Visualization(r["word"])
